@@ -149,8 +149,9 @@ theorem repr_binary_decode_canonical (B : Nat) (hB : 2 ≤ B) (s : Bytes) (v : F
 theorem fbig_binary_decode_canonical (B : Nat) (hB : 2 ≤ B) (s : Bytes) (v : FPVal) (r : Bytes)
     (h : decF B s = some (v, r)) : FPCanon B v := decF_canonical B hB s v r h
 
-/-! The three places where the code *as it is* (`…AsIs` mirrors) breaks the statements above; the
-    matching entries of `known_findings.jsonl` absorb exactly these input classes. -/
+/-! The three places where the code *before* /repo 78fd274 / 9f519ab (`…AsIs` mirrors) broke the
+    statements above (now `fixed:` lines in `known_findings.jsonl`): the checks in `decQ` / `decF` /
+    `fread` are necessary. -/
 
 /-- as-is: numerator 1 (bytes `01 01`… here `-1`), denominator empty ⇒ `-1/0` -/
 theorem rbig_zero_denominator_counterexample : ∃ q r, decQAsIs [1, 1, 0] = some (q, r) ∧ ¬ QReduced q :=
